@@ -24,6 +24,7 @@ type entDef struct {
 	Multi    bool
 	Keys     []keyDef // in @key declaration order
 	Requires bool     // has `cost @requires(fields:"weight")`
+	Req3     bool     // has `total @requires(fields:"qty label ratio")` (Int, String, Float)
 }
 
 var entities = map[string]entDef{
@@ -33,8 +34,10 @@ var entities = map[string]entDef{
 	"Multi":   {Multi: true, Keys: []keyDef{{"FindManyMultiByIDs", [][]string{{"id"}}, []string{"ID"}}}},
 	"MultiTwo": {Multi: true, Keys: []keyDef{{"FindManyMultiTwoByIDs", [][]string{{"id"}}, []string{"ID"}},
 		{"FindManyMultiTwoBySkus", [][]string{{"sku"}}, []string{"String"}}}},
-	"Req":      {Requires: true, Keys: []keyDef{{"FindReqByID", [][]string{{"id"}}, []string{"ID"}}}},
-	"MultiReq": {Multi: true, Requires: true, Keys: []keyDef{{"FindManyMultiReqByIDs", [][]string{{"id"}}, []string{"ID"}}}},
+	"Req":       {Requires: true, Keys: []keyDef{{"FindReqByID", [][]string{{"id"}}, []string{"ID"}}}},
+	"MultiReq":  {Multi: true, Requires: true, Keys: []keyDef{{"FindManyMultiReqByIDs", [][]string{{"id"}}, []string{"ID"}}}},
+	"Req3":      {Req3: true, Keys: []keyDef{{"FindReq3ByID", [][]string{{"id"}}, []string{"ID"}}}},
+	"MultiReq3": {Multi: true, Req3: true, Keys: []keyDef{{"FindManyMultiReq3ByIDs", [][]string{{"id"}}, []string{"ID"}}}},
 	"Tri": {Keys: []keyDef{{"FindTriByUpcAndRegion", [][]string{{"upc"}, {"region"}}, []string{"String", "String"}},
 		{"FindTriBySku", [][]string{{"sku"}}, []string{"String"}}, {"FindTriByID", [][]string{{"id"}}, []string{"ID"}}}},
 	"MultiTri": {Multi: true, Keys: []keyDef{{"FindManyMultiTriByUpcAndRegions", [][]string{{"upc"}, {"region"}}, []string{"String", "String"}},
@@ -45,15 +48,18 @@ var entities = map[string]entDef{
 // property statement defines in that mode are selected (see Assumptions).
 func Query(mode string) string {
 	req, mreq := "id weight cost", "id weight cost"
+	req3, mreq3 := "id qty label ratio total", "id qty label ratio total"
 	switch mode {
 	case "explicit":
 		mreq = "id weight"
+		mreq3 = "id qty label ratio"
 	case "computed":
 		req, mreq = "id cost", "id cost"
+		req3, mreq3 = "id total", "id total"
 	}
 	return `query($r:[_Any!]!){_entities(representations:$r){__typename ... on Single{id v} ... on TwoKeys{id sku v} ` +
 		`... on Nested{owner{id v} slot v} ... on Multi{id v} ... on MultiTwo{id sku v} ... on Req{` + req + `} ... on MultiReq{` + mreq + `} ` +
-		`... on Tri{upc region sku id v} ... on MultiTri{upc region sku id v}}}`
+		`... on Tri{upc region sku id v} ... on MultiTri{upc region sku id v} ... on Req3{` + req3 + `} ... on MultiReq3{` + mreq3 + `}}}`
 }
 
 // lookup walks a key path; ok=false when a field is missing or an inner value is not an object.
@@ -251,6 +257,9 @@ type Want struct {
 	// Lenient: for an ill-typed key that gqlgen's scalars coerce, the entity of the coerced key
 	// (accepted as an alternative answer, see lenientLeaf).
 	Lenient string `json:"lenient_alternative,omitempty"`
+	// ReqIllTyped: a required (@requires) field of this representation has a value its scalar
+	// rejects (it fails this representation only).
+	ReqIllTyped bool `json:"ill_typed_required_field,omitempty"`
 }
 
 type Ref struct {
@@ -264,6 +273,112 @@ type Ref struct {
 func (f *Fault) hits(resolver, key string) bool {
 	return f != nil && f.Resolver == resolver && f.Key == key
 }
+
+// Total3 is what the user-written populators / computed resolvers derive from the three
+// required fields; StubTotal is what the stub entity resolvers put into `total`.
+func Total3(qty int, label string, ratio float64) string {
+	return fmt.Sprintf("%d|%s|%g", qty, label, ratio)
+}
+func StubTotal(id string) string { return "total-of-" + id }
+
+// Requires3 reads the three required fields strictly (what user code does with the
+// representation it is handed): each must be present with a value of its own type.
+func Requires3(rep map[string]any) (qty int, label string, ratio float64, err error) {
+	qs, ok := leaf("Int", rep["qty"])
+	if !ok {
+		return 0, "", 0, fmt.Errorf("required field qty missing or not an Int")
+	}
+	qty, _ = strconv.Atoi(qs)
+	label, ok = rep["label"].(string)
+	if !ok {
+		return 0, "", 0, fmt.Errorf("required field label missing or not a String")
+	}
+	n, ok := rep["ratio"].(json.Number)
+	if !ok {
+		return 0, "", 0, fmt.Errorf("required field ratio missing or not a Float")
+	}
+	ratio, perr := strconv.ParseFloat(n.String(), 64)
+	if perr != nil {
+		return 0, "", 0, perr
+	}
+	return qty, label, ratio, nil
+}
+
+// req3 evaluates the required fields of a Req3 / MultiReq3 representation whose entity
+// resolver succeeded. Generated code copies required fields with the field's scalar
+// unmarshaller ("inline": default mode, and the multi path in every mode); a value the
+// scalar rejects fails the representation; absent / null (read as the zero value) and a
+// number for String (coerced) are gqlgen's lenient scalars: either answer is accepted.
+// User code (explicit populator of Req3, computed `total` resolvers) is strict.
+func req3(mode string, multi bool, id string, rep map[string]any) (status, js, lenient string, illTyped bool) {
+	typ := "Req3"
+	if multi {
+		typ = "MultiReq3"
+	}
+	qty, label, ratio, strictErr := Requires3(rep)
+	// inline evaluation
+	inlineFail, inlineLenient := false, false
+	field := func(kind, name string) string {
+		v, present := rep[name]
+		if s, ok := leaf(kind, v); ok && present {
+			return s
+		}
+		if kind == "Float" {
+			if n, ok := v.(json.Number); ok {
+				return n.String()
+			}
+		}
+		if !present || v == nil {
+			inlineLenient = true
+			if kind == "String" {
+				return ""
+			}
+			return "0"
+		}
+		if s, ok := lenientLeaf(kind, v); ok {
+			inlineLenient = true
+			return s
+		}
+		inlineFail = true
+		return ""
+	}
+	iq, il, ir := field("Int", "qty"), field("String", "label"), field("Float", "ratio")
+	render := func(q, l, r, total string, withFields, withTotal bool) string {
+		out := `{"__typename":"` + typ + `","id":` + jq(id)
+		if withFields {
+			out += `,"qty":` + q + `,"label":` + jq(l) + `,"ratio":` + r
+		}
+		if withTotal {
+			out += `,"total":` + jq(total)
+		}
+		return out + "}"
+	}
+	inline := mode == "default" || (mode == "explicit" && multi)
+	switch {
+	case inline:
+		withTotal := mode == "default"
+		if inlineFail {
+			return "fail", "", "", true
+		}
+		v := render(iq, il, ir, StubTotal(id), true, withTotal)
+		if inlineLenient {
+			return "fail", "", v, false
+		}
+		return "value", v, "", false
+	case mode == "explicit": // Req3: the populator is handed the representation
+		if strictErr != nil {
+			return "fail", "", "", false
+		}
+		return "value", render(iq, il, ir, Total3(qty, label, ratio), true, true), "", false
+	default: // computed: `total` is computed by the field resolver from the representation
+		if strictErr != nil || (multi && inlineFail) {
+			return "fail", "", "", multi && inlineFail
+		}
+		return "value", render("", "", "", Total3(qty, label, ratio), false, true), "", false
+	}
+}
+
+func jq(s string) string { return q(s) }
 
 // Reference evaluates every representation on its own.
 func Reference(mode string, reps []map[string]any, fault *Fault) *Ref {
@@ -359,13 +474,21 @@ func Reference(mode string, reps []map[string]any, fault *Fault) *Ref {
 				weight, _ = strconv.Atoi(ws)
 			}
 		}
+		var js3 string
+		if status == "value" && ent.Req3 {
+			status, js3, w.Lenient, w.ReqIllTyped = req3(mode, ent.Multi, sel[i].args[0], rep)
+		}
 		if status == "value" {
 			var extra string
 			switch {
 			case mode == "explicit" && w.Type == "Req":
 				extra = "PopulateReqRequires"
+			case mode == "explicit" && w.Type == "Req3":
+				extra = "PopulateReq3Requires"
 			case mode == "computed" && ent.Requires:
 				extra = w.Type + ".cost"
+			case mode == "computed" && ent.Req3:
+				extra = w.Type + ".total"
 			}
 			if extra != "" && fault.hits(extra, sel[i].args[0]) && fault.Kind != "nil" {
 				status = "fail"
@@ -374,7 +497,11 @@ func Reference(mode string, reps []map[string]any, fault *Fault) *Ref {
 		}
 		w.Status = status
 		if status == "value" {
-			w.JSON = valueJSON(mode, w.Type, sel[i].kd, sel[i].args, weight)
+			if ent.Req3 {
+				w.JSON = js3
+			} else {
+				w.JSON = valueJSON(mode, w.Type, sel[i].kd, sel[i].args, weight)
+			}
 		}
 	}
 	sort.Strings(r.Calls)
@@ -432,6 +559,12 @@ func FaultPositions(mode string, reps []map[string]any) []Fault {
 		}
 		if mode == "explicit" && w.Type == "Req" {
 			add("PopulateReqRequires", w.Key, "error", "panic")
+		}
+		if mode == "explicit" && w.Type == "Req3" {
+			add("PopulateReq3Requires", w.Key, "error", "panic")
+		}
+		if mode == "computed" && entities[w.Type].Req3 {
+			add(w.Type+".total", w.Key, "error", "panic")
 		}
 		if mode == "computed" && entities[w.Type].Requires {
 			add(w.Type+".cost", w.Key, "error", "panic")
